@@ -606,7 +606,8 @@ func (k *Key) UnmarshalCBOR(data []byte) error {
 	if err != nil {
 		return fmt.Errorf("key_ops: %w", err)
 	}
-	if len(key_ops) > 0 {
+	if key_ops != nil {
+		// keep a present but empty key_ops: such a key permits no operation
 		k.Ops = make([]KeyOp, len(key_ops))
 		for i, op := range key_ops {
 			switch op := op.(type) {
